@@ -204,6 +204,36 @@ class _Fold(ast.NodeTransformer):
         if isinstance(f, ast.Attribute) and f.attr in ('lower', 'upper') and not node.args and isinstance(f.value, ast.Constant) and isinstance(f.value.value, str):
             self.changed = True
             return _const(getattr(f.value.value, f.attr)(), node)
+        # side-effect free string methods / POSIX path functions of literal arguments: evaluated
+        args = [a.value for a in node.args] if all(isinstance(a, ast.Constant) and type(a.value) in (str, int, bool, type(None)) for a in node.args) and \
+            not node.keywords else None
+        if args is not None and isinstance(f, ast.Attribute) and isinstance(f.value, ast.Constant) and isinstance(f.value.value, str) and \
+                f.attr in ('startswith', 'endswith', 'strip', 'lstrip', 'rstrip', 'replace', 'isdigit', 'count', 'find'):
+            try:
+                v = getattr(f.value.value, f.attr)(*args)
+            except Exception:       # noqa
+                return node
+            self.changed = True
+            return _const(v, node)
+        if args is not None and args and all(isinstance(a, str) for a in args):
+            try:
+                d = ast.unparse(f)
+            except Exception:       # noqa
+                d = ''
+            if d in ('os.path.dirname', 'os.path.basename', 'os.path.isabs', 'os.path.join', 'os.path.normpath', 'os.path.splitext'):
+                import posixpath
+                v = getattr(posixpath, d.rsplit('.', 1)[1])(*args)
+                if isinstance(v, (str, bool)):
+                    self.changed = True
+                    return _const(v, node)
+        return node
+
+    def visit_BinOp(self, node):
+        self.generic_visit(node)
+        if isinstance(node.op, ast.Add) and isinstance(node.left, ast.Constant) and isinstance(node.right, ast.Constant) and \
+                isinstance(node.left.value, str) and isinstance(node.right.value, str):
+            self.changed = True
+            return _const(node.left.value + node.right.value, node)
         return node
 
     def visit_Subscript(self, node):
